@@ -256,6 +256,7 @@ def check_case(case, rec):
                       msg=f'{fam}: optical paths of the hand-made RealRays bundle differ by {sph:.3e}')
         if ok.all():
             from optiland.wavefront import Wavefront
+            lens.trace_generic(0.0, 0.0, 0.21, -0.45, wl)       # an unrelated single-ray trace in the records: must not matter
             wf = Wavefront(lens, fields=[(0.0, 0.0)], wavelengths=[wl], num_rays=case['rings'], distribution='hexapolar')
             W = np.asarray(wf.data[0][0][0], dtype=float)
             fin = np.isfinite(W)
